@@ -37,6 +37,37 @@ Example C06_former_crash_input_displays :
               /\ m <> [] /\ to_string m = Ok s.
 Proof. eexists. eexists. split; [vm_compute; reflexivity|]. split; [discriminate|vm_compute; reflexivity]. Qed.
 
+(* ---- tie to the source: RtMessage::from_bytes / single_tag_message / multi_tag_message as
+   translated from src/message.rs on this run never panic, for every byte string: none of the
+   translated slices, index operations, `usize` subtractions or `?` conversions can fail ---- *)
+Require RV.Model.GenSupport RV.Gen.Code RV.Proofs.CodeMessage.
+
+Theorem C06_translated_decoder_total : forall bs, is_panic (RV.Gen.Code.gen_from_bytes bs) = false.
+Proof. exact RV.Proofs.CodeMessage.gen_decoder_total. Qed.
+Print Assumptions C06_translated_decoder_total.
+
+Theorem C06_translated_values_are_payload :
+  forall bs m, RV.Gen.Code.gen_from_bytes bs = Ok m -> m <> [] ->
+               concat (map snd m) = skipn (8 * length m) bs.
+Proof. exact RV.Proofs.CodeMessage.gen_values_are_payload. Qed.
+Print Assumptions C06_translated_values_are_payload.
+
+(* RtMessage::to_string as translated (a Fixpoint on the model's fuel; the recursive call is the
+   source's own `nested_msg.to_string(indent_level + 1)`) is the model's display function, and
+   Display (`to_string(1)`) returns normally for every message *)
+Theorem C06_translated_display_is_model :
+  forall fuel tags values indent, length tags = length values -> 1 <= indent ->
+    RV.Gen.Code.gen_to_string fuel tags values indent
+    = to_string_f fuel (N.to_nat indent) (combine tags values).
+Proof. exact RV.Proofs.CodeMessage.gen_to_string_model. Qed.
+Print Assumptions C06_translated_display_is_model.
+
+Theorem C06_translated_display_total :
+  forall tags values, length tags = length values ->
+    exists s, RV.Gen.Code.gen_to_string (S MAX_DISPLAY_DEPTH) tags values 1 = Ok s.
+Proof. exact RV.Proofs.CodeMessage.gen_display_total. Qed.
+Print Assumptions C06_translated_display_total.
+
 (* ---- tie to the source: the integer literals of the functions this property's model stands for
    (private constants, bounds, unit factors; the files are SiteMap.files_C06) are today the ones the
    model was written against. Gen/Sites.v num_literals is regenerated from /repo on every run; a
